@@ -1849,10 +1849,10 @@ NC_fill_buffer(NC *handle, int varid, const long *edges, void *values)
         if (HDmemfill(values, (*attr)->data->values, vp->szof, buf_size) == NULL) {
             return -1;
         }
-        /* If no user-defined fill-value, fill the buffer with default fill-value */
-        else {
-            NC_arrayfill(values, buf_size * vp->szof, vp->type);
-        }
+    }
+    /* If no user-defined fill-value, fill the buffer with default fill-value */
+    else {
+        NC_arrayfill(values, buf_size * vp->szof, vp->type);
     }
 
     return 0;
